@@ -150,6 +150,7 @@ def run(ctx):
     # updates intercepted in real runs
     dspecs = [corpus.rand_spec(rng, problems.CONVEX + problems.NONCONVEX, nmax=8, allow_target=False, allow_cb=False)
               for _ in range(ctx.pick(150, 1500))]
+    dspecs += corpus.scripted_specs(rng, exhaustive_len=1, n_random=ctx.pick(100, 1000))
     drivercheck.run_traces(ctx, dspecs, PREFIX)
     return ctx.finish("model_checking", RULE)
 
